@@ -84,20 +84,22 @@ def ob_repair_store_unconditional(run, oid):
             o.check(not extra, "Blockstore::add_shred_from_repair|no-condition", "no condition guards the delegation", c.span, {"extra": G.atoms_show(extra)})
 
 
-def check(run):
-    ob_request_identifier(run, "O14.12")
-    ob_repair_store_unconditional(run, "O14.13")
+def check(run, prefix="O14", compose=True):
+    P = prefix
+    ob_request_identifier(run, P + ".12")
+    ob_repair_store_unconditional(run, P + ".13")
     from . import detectors as _DL
-    _DL.ob_loop_exits(run, "O14.11", ['repair::', 'consensus::blockstore'], 'every missing slice / shred has to be requested: a loop that stops early never repairs the rest')
-    ob_block_lookup(run, "O14.10")
+    _DL.ob_loop_exits(run, P + ".11", ['repair::', 'consensus::blockstore'], 'every missing slice / shred has to be requested: a loop that stops early never repairs the rest')
+    ob_block_lookup(run, P + ".10")
     # the requester accepts a slice count only through check_proof_last / check_proof: their index-domain and last-leaf obligations
-    from . import C15
-    C15.check(run, prefix="O14.9")
-    D.ob_state_mutations(run, "O14.8", ['repair::Repair'], 'outstanding requests, proven roots and slice counts are what responses are checked against: clearing or overwriting them derails or corrupts a repair')
+    if compose:
+        from . import C15
+        C15.check(run, prefix=P + ".9", compose=False)
+    D.ob_state_mutations(run, P + ".8", ['repair::Repair'], 'outstanding requests, proven roots and slice counts are what responses are checked against: clearing or overwriting them derails or corrupts a repair')
     prog = run.program("lib")
     fam = [b for b in prog.family(REP + "::handle_response") if b.is_closure and b.defpath.endswith("handle_response::{closure#0}")]
     if not fam:
-        run.ob("O14.1", "store only after proof", "", floor=1).missing("Repair::handle_response")
+        run.ob(P + ".1", "store only after proof", "", floor=1).missing("Repair::handle_response")
         return
     b = fam[0]
 
@@ -105,7 +107,7 @@ def check(run):
         return [c for c in b.calls() if c.name.endswith("BTreeMap::insert") and K.is_field(b.operand_term(c.args[0]), field, "Repair")]
 
     # ------------------------------------------------------------------ O14.1
-    o = run.ob("O14.1", "repair data is stored only after request match and proof against the requested block hash",
+    o = run.ob(P + ".1", "repair data is stored only after request match and proof against the requested block hash",
                "without the proof (or with a proof for another index/root) a peer plants arbitrary slice roots / shreds under the requested block id", floor=16)
     sr = insert_sites("slice_roots")
     if len(sr) != 2:
@@ -170,7 +172,7 @@ def check(run):
         o.check(VS + "::try_new" in pv["calls"], key + "|validated-value", "the stored value is the Ok of try_new", c.span)
 
     # ------------------------------------------------------------------ O14.2
-    o = run.ob("O14.2", "no derailment: an outstanding request is removed only where the answered data is accepted; NACKs and timeouts re-issue",
+    o = run.ob(P + ".2", "no derailment: an outstanding request is removed only where the answered data is accepted; NACKs and timeouts re-issue",
                "removing the request before validation lets one invalid response cancel the retry: repair never completes although peers answer correctly", floor=12)
     rem = [c for c in b.calls() if (c.name.endswith("BTreeMap::remove")) and K.is_field(b.operand_term(c.args[0]), "outstanding_requests", "Repair")]
     stores = [c.bb for c in sr] + [c.bb for c in st]
@@ -210,7 +212,7 @@ def check(run):
         o.check(bool(ins) and bool(psh) and x.always_followed_by(0, [c.bb for c in ins]) and x.always_followed_by(0, [c.bb for c in psh]), "send_request|registers", "send_request records the request as outstanding and arms its timeout", x.span)
 
     # ------------------------------------------------------------------ O14.3
-    o = run.ob("O14.3", "identifier = content hash: repaired shreds must agree with the proven slice count (last-slice marker is signed but not covered by the block hash)",
+    o = run.ob(P + ".3", "identifier = content hash: repaired shreds must agree with the proven slice count (last-slice marker is signed but not covered by the block hash)",
                "a leader-signed contradictory is_last completes the repaired block early with another root: it is stored under the requested id and assert_eq!(hash) kills the repair task", floor=3)
     ls = insert_sites("last_slices")
     o.check(len(ls) == 1, "handle_response|last_slices.insert", "the proven index of the last slice is remembered per block", b.span, {"n": len(ls)})
@@ -238,7 +240,7 @@ def check(run):
                 o.check(ok, "handle_response|send_request(SliceRoot)|after-last", "SliceRoot requests are issued only after the last-slice index was recorded", c.span)
 
     # ------------------------------------------------------------------ O14.4
-    o = run.ob("O14.4", "responder: request kind -> response kind with data read from the blockstore for the same ids; cannot serve => Nack; unknown sender dropped before indexing",
+    o = run.ob(P + ".4", "responder: request kind -> response kind with data read from the blockstore for the same ids; cannot serve => Nack; unknown sender dropped before indexing",
                "a responder answering with data of another block/slice makes honest requesters reject honest answers", floor=8)
     tb = [x for x in prog.family(RRH + "::try_build_response") if x.is_closure]
     want = {"LastSliceRoot": {"get_last_slice_index", "get_slice_root", "create_double_merkle_proof"}, "SliceRoot": {"get_slice_root", "create_double_merkle_proof"}, "Shred": {"get_shred"}}
@@ -281,7 +283,7 @@ def check(run):
             o.check(K.mentions_field(x.operand_term(c.args[2]), "sender", "RepairRequest"), "answer_request|send_response|to-sender", "the answer goes to the requester", c.span)
 
     # ------------------------------------------------------------------ O14.7
-    o = run.ob("O14.7", "every shred a node stores (and later serves to repair requesters / copies into regenerated shreds) carries signature bytes that were verified",
+    o = run.ob(P + ".7", "every shred a node stores (and later serves to repair requesters / copies into regenerated shreds) carries signature bytes that were verified",
                "a served shred with an unverifiable signature is rejected by every honest requester: the node cannot answer 'with data that verifies'", floor=2)
     tn = prog.body(VS + "::try_new")
     if tn is None:
